@@ -373,8 +373,11 @@ def valueclass(name, variants, fields):
 class Contract:
     def __init__(self, owner, name, args=None, requires=(), ensures=(), raises=None, returns=None,
                  modifies=None, self_ty=None, kind="method", inv=True, uses=(), yields=None,
-                 tags=(), focus=None, pure=False, max_paths=4000, setup=None, inline=()):
+                 tags=(), focus=None, pure=False, max_paths=4000, setup=None, inline=(), label=None,
+                 teardown=None):
         self.owner, self.name = owner, name
+        self.label = label                # distinguishes several contracts of one function (argument types)
+        self.teardown = teardown          # undo of whatever `setup` patched (runs after every path)
         self.args = dict(args or {})
         self.requires = list(requires)
         self.ensures = list(ensures)
@@ -396,7 +399,7 @@ class Contract:
     @property
     def qualname(self):
         o = self.owner if isinstance(self.owner, str) else self.owner.__name__
-        return f"{o}.{self.name}"
+        return f"{o}.{self.name}" + (f"[{self.label}]" if self.label else "")
 
 
 def fn(owner, name, **kw):
@@ -435,8 +438,8 @@ def lemma(name, body, tags=()):
     return c
 
 
-def loop(relpath, qualname, ordinal, inv, modifies=(), types=None, elem=None, decreases=None):
-    sp = LoopSpec(inv, modifies, types, elem, decreases)
+def loop(relpath, qualname, ordinal, inv, modifies=(), types=None, elem=None, decreases=None, keeps=()):
+    sp = LoopSpec(inv, modifies, types, elem, decreases, keeps=keeps)
     _loader.declare_loop(relpath, qualname, ordinal, sp)
     return sp
 
